@@ -25,6 +25,7 @@ func newBody() *Body {
 }
 
 func (b *Body) appendItem(c nodeContent) *node {
+	b.terminateLastLine()
 	nn := b.children.Append(c)
 	b.items.Add(nn)
 	return nn
@@ -32,9 +33,26 @@ func (b *Body) appendItem(c nodeContent) *node {
 
 func (b *Body) appendItemNode(nn *node) *node {
 	nn.assertUnattached()
+	b.terminateLastLine()
 	b.children.AppendNode(nn)
 	b.items.Add(nn)
 	return nn
+}
+
+// terminateLastLine makes sure that whatever the body already contains ends
+// with a newline, so that an item appended next starts on a line of its own.
+// Content parsed from source can lack the final newline, if the source did.
+func (b *Body) terminateLastLine() {
+	for n := b.children.last; n != nil; n = n.before {
+		toks := n.BuildTokens(nil)
+		if len(toks) == 0 {
+			continue
+		}
+		if !tokenIsNewline(toks[len(toks)-1]) {
+			b.AppendNewline()
+		}
+		return
+	}
 }
 
 // Clear removes all of the items from the body, making it empty.
